@@ -46,7 +46,7 @@ func faultCases(prop, tier string, seed uint64) []Case {
 	return cases
 }
 
-var faultClasses = []string{"dwrite", "dwrite-short", "dread", "persist", "cache", "cachenew", "src", "openw", "openr"}
+var faultClasses = []string{"dwrite", "dwrite-short", "dread", "persist", "cache", "cachenew", "cacheclean", "src", "srcclose", "openw", "openr", "closew", "closer"}
 
 type faultCtx struct {
 	w    *Worker
@@ -316,6 +316,6 @@ func rejectionRun(fc *faultCtx, c Case) (res Result) {
 func init() {
 	register(&Engine{Name: "faults", Props: []string{"C10"}, Cases: faultCases, Run: faultRun})
 	propMeta["C10"] = PropMeta{Level: "fault_enumeration",
-		Rule: "per case one generated history (fs-level and batched calls) is run fault-free while the seams count, per call, the drive writes, drive reads, index-store calls, write-cache calls, source reads and drive opens it reaches; then the call is re-run from a snapshot of the instance taken before it once for every k up to each count with exactly that event failing (error, and short write for drive writes), and once with the drive directory missing; after each: the call returned, the process lives, no lock is held once the streaming goroutine has settled (lock hooks), and a probe lookup + mutating call return; plus two cases of explicit precondition rejections; non-trivial = at least 20 fault points fired; distinct = distinct (configuration, history)",
+		Rule: "per case one generated history (fs-level and batched calls) is run fault-free while the seams count, per call, the drive writes, drive reads, index-store calls, write-cache calls, source reads and drive opens it reaches; then the call is re-run from a snapshot of the instance taken before it once for every k up to each count with exactly that event failing (error, and short write for drive writes; closing the drive writer/reader, the write-cache clean-up and the source's Close report an error after doing their work), and once with the drive directory missing; after each: the call returned, the process lives, no lock is held once the streaming goroutine has settled (lock hooks), and a probe lookup + mutating call return; plus two cases of explicit precondition rejections; non-trivial = at least 20 fault points fired; distinct = distinct (configuration, history)",
 		Assumptions: []string{"the state after a fault is not judged", "re-runs start from a reopened copy of the instance as it was before the call (index + tape), not from a replay of the whole history", "hang verdicts come from the no-progress watchdog classified by goroutine state"}}
 }
